@@ -2,7 +2,7 @@
    hand-written model functions.  Definitions only; depends on no proof file, so that it still runs when
    a proof of Gen*.v breaks: the driver then evaluates [sweeps_Cxx] and reports the disagreeing inputs.
    On the unchanged tree every sweep is []. *)
-From Verif Require Import Base Seq ListImpl Coll MiniGo GenSrc GenRep.
+From Verif Require Import Base Sorter Seq ListImpl Coll MiniGo GenSrc GenRep.
 
 Local Open Scope Z_scope.
 
@@ -37,6 +37,15 @@ Fixpoint val_eqb (a b : val Z) : bool :=
        | _, _ => false
        end) l m
   | VMeth r m, VMeth r' m' => val_eqb r r' && Pos.eqb m m'
+  | VTag p v, VTag q w => Nat.eqb p q && val_eqb v w
+  | VWb v l, VWb w m =>
+    val_eqb v w &&
+    (fix go (l m : list (nat * val Z)) : bool :=
+       match l, m with
+       | [], [] => true
+       | (p, x) :: l', (q, y) :: m' => Nat.eqb p q && val_eqb x y && go l' m'
+       | _, _ => false
+       end) l m
   | _, _ => false
   end.
 
@@ -281,3 +290,29 @@ Definition sweeps_C02 : list disagreement :=
   sweep_set_AddValues ++ sweep_set_RemoveValues ++ sweep_set_RemoveAll ++
   sweep_set_findIndex ++ sweep_set_AddValue ++ sweep_set_RemoveValue ++ sweep_set_ContainsValue ++ sweep_set_GetIndex ++
   sweeps_seq.
+
+(* ---------- C09: agent/sorter.go (merge sort and reversal in place in the caller's slice) ---------- *)
+Definition perms4 : list (list Z) :=
+  [[]; [5]; [5; 3]; [3; 5]; [2; 2]; [3; 1; 2]; [1; 2; 3]; [3; 2; 1]; [2; 3; 1; 2]; [4; 3; 2; 1]; [1; 3; 2; 4; 0];
+   [5; 1; 4; 2; 3; 0]; [7; 6; 5; 4; 3; 2; 1]; [1; 1; 2; 1; 2; 2; 1; 3]; [9; 8; 7; 6; 5; 4; 3; 2; 1]].
+Definition srtv : val Z := srt_val VNil.
+Definition wb1 (l : list Z) : val Z := VWb srtv [(1%nat, VSlice (elems l))].
+Definition sweep_sorter_SortValues := flat_map (fun rk => flat_map (fun l =>
+  cmpx (rank_ext rk) id_SortValues srtv [VSlice (elems l)] (ORet (VTuple [], wb1 (Sorter.sort_values rk l)))) perms4) rankers.
+Definition sweep_sorter_ReverseValues := flat_map (fun l =>
+  cmpx (rank_ext Z.compare) id_ReverseValues srtv [VSlice (elems l)] (ORet (VTuple [], wb1 (Sorter.reverse_values l)))) perms4.
+Definition sweep_sorter_mergeArrays := flat_map (fun rk => flat_map (fun l => flat_map (fun r =>
+  cmpx (rank_ext rk) id_mergeArrays srtv [VSlice (elems l); VSlice (elems r); VSlice (elems (repeat 0 (length l + length r)))]
+       (ORet (VTuple [], VWb srtv [(3%nat, VSlice (elems (Sorter.merge rk (length l + length r) l r)))])))
+       [[]; [2]; [1; 3]; [2; 2; 5]]) [[]; [2]; [1; 4]; [0; 2; 6]]) rankers.
+Definition sweep_array_SortValues := flat_map (fun l =>
+  cmpx (rank_ext Z.compare) id_SortValues (aval l) [] (ORet (VTuple [], aval (Sorter.sort_values Z.compare l)))) perms4.
+Definition sweep_list_SortValues := flat_map (fun l =>
+  cmpx (rank_ext Z.compare) id_SortValues (lval l) [] (ORet (VTuple [], lval (Sorter.sort_values Z.compare l)))) perms4.
+Definition sweep_array_ReverseValues := flat_map (fun l =>
+  cmpx (rank_ext Z.compare) id_ReverseValues (aval l) [] (ORet (VTuple [], aval (Sorter.reverse_values l)))) perms4.
+Definition sweep_list_ReverseValues := flat_map (fun l =>
+  cmpx (rank_ext Z.compare) id_ReverseValues (lval l) [] (ORet (VTuple [], lval (Sorter.reverse_values l)))) perms4.
+Definition sweeps_C09 : list disagreement :=
+  sweep_sorter_SortValues ++ sweep_sorter_ReverseValues ++ sweep_sorter_mergeArrays ++ sweep_array_SortValues ++
+  sweep_list_SortValues ++ sweep_array_ReverseValues ++ sweep_list_ReverseValues.
